@@ -4,6 +4,8 @@
 #include "cmd_isa.h"
 #include "cmd_cond.h"
 #include "cmd_sym.h"
+#include "cmd_sim.h"
+#include "cmd_mem.h"
 
 static void register_all()
 {
@@ -11,4 +13,6 @@ static void register_all()
   register_isa();
   register_cond();
   register_sym();
+  register_sim();
+  register_mem();
 }
